@@ -648,7 +648,6 @@ func ruleTPush(c *Ctx) {
 	sibs := []sib{
 		{"bscript", "", "MinPushSize", "len(p0)", []string{"== 0", "== 1", "<= 75", "<= 255", "<= 65535"}},
 		{"bscript/interpreter", "*ParsedOpcode", "enforceMinimumDataPush", "len(", []string{"== 0", "== 1", "<= 75", "<= 255", "<= 65535"}},
-		{"bscript/interpreter", "ParsedOpcode", "canonicalPush", "len(", []string{"== 1", "< 76", "<= 255", "<= 65535"}},
 	}
 	for _, s := range sibs {
 		fn := c.P.Func(s.pkg, s.recv, s.name)
@@ -670,7 +669,7 @@ func ruleTPush(c *Ctx) {
 			wantSet[w] = true
 		}
 		for g := range got {
-			if !wantSet[g] && !strings.HasPrefix(g, "> 4294967295") {
+			if !wantSet[g] && !strings.HasPrefix(g, "> 4294967295") && g != "<= 4294967295" {
 				extra = append(extra, g)
 			}
 		}
@@ -713,7 +712,17 @@ func lengthAtoms(fn *ssa.Function, termSub string) map[string]bool {
 			if op == token.NEQ {
 				op = token.EQL
 			}
-			out[op.String()+" "+y.C.ExactString()] = true
+			// one spelling per threshold: x < c is x <= c-1, x > c is x >= c+1, and a test and its negation are one boundary
+			kv, _ := constValInt(y.C)
+			switch op {
+			case token.LSS:
+				op, kv = token.LEQ, new(big.Int).Sub(kv, big.NewInt(1))
+			case token.GTR:
+				op, kv = token.LEQ, kv
+			case token.GEQ:
+				op, kv = token.LEQ, new(big.Int).Sub(kv, big.NewInt(1))
+			}
+			out[op.String()+" "+kv.String()] = true
 		}
 	}
 	return out
